@@ -42,6 +42,8 @@ def check(run, tier):
     )
     q = tier == "quick"
     run.mc("MC_Split", "MC_Split" if q else "MC_Split_thorough")
+    # unbounded: the balanced split is valid and minimal for EVERY volume and EVERY positive max_volume (TLAPS, 81 obligations)
+    run.tlaps("SplitValid")
     # the configuration is part of the state of the twin model: SetCfg steps between the operations (family "config")
     run.mc("MC_Twin", "MC_Twin_config")
     if not q:
